@@ -207,6 +207,37 @@ def job_record(P, taps, Wb, nsb, npol, nant, bits, start_chan, num_chans, nblock
     return recs
 
 
+def build_array(P, taps, Wb, nsb, npol, delays, noise=True, tone=False, t_start=0, bpf=2):
+    """backend on the real MultiAntennaArray (call inside volt_patches with the generator-stub proxy)"""
+    nant, bits = len(delays), 8
+    arr = A.MultiAntennaArray(num_antennas=nant, sample_rate=1024.0, fch1=4096.0, ascending=True, num_pols=npol, delays=list(delays), t_start=t_start, seed=5)
+    for ai, ant in enumerate(arr.antennas):
+        for pi, st in enumerate(ant.streams):
+            if noise:
+                st.add_noise(0, 1)
+            if tone:
+                st.add_constant_signal(4096.0 + 100.0 + 13.0 * ai + 7.0 * pi, 0.0, 1.0)
+    for pi, bg in enumerate(arr.bg_streams):
+        if noise:
+            bg.add_noise(0, 1)
+        if tone:
+            bg.add_constant_signal(4096.0 + 200.0 + 5.0 * pi, 0.0, 2.0)
+    fb = PF.PolyphaseFilterbank(num_taps=taps, num_branches=P)
+    T = taps * Wb
+    be = B.RawVoltageBackend(arr, UQ(), fb, UCQ(num_bits=bits), start_chan=0, num_chans=P // 2,
+                             block_size=T * nant * (P // 2) * 2 * npol, blocks_per_file=bpf, num_subblocks=nsb)
+    w = npx.sarr([Sym(z3.Real(f'w_{m}')) for m in range(taps * P)])
+    for a in range(nant):
+        for p in range(npol):
+            be.digitizer[a][p].ident = (a, p)
+            be.requantizer[a][p].ident = (a, p)
+            be.filterbank[a][p].window = w
+    ws = [lift(x) for x in w]
+    own = [[st.rng.seed for st in ant.streams] for ant in arr.antennas]
+    bgs = [bg.rng.seed for bg in arr.bg_streams]
+    return be, arr, ws, own, bgs
+
+
 def job_array_source(P, taps, Wb, nsb, npol, delays, nblocks):
     """the real MultiAntennaArray (seeded noise on every own and background stream, as symbolic draws) as the source:
     the recording equals the reference pipeline applied to own_i(k) + background(k + max_delay - delay_i), or the
@@ -219,25 +250,7 @@ def job_array_source(P, taps, Wb, nsb, npol, delays, nblocks):
     fs = MemFS()
     refused = None
     with volt_patches(opener=fs.open, proxy=gen_proxy()):
-        arr = A.MultiAntennaArray(num_antennas=nant, sample_rate=1024.0, fch1=4096.0, ascending=True, num_pols=npol, delays=list(delays), seed=5)
-        for ant in arr.antennas:
-            for st in ant.streams:
-                st.add_noise(0, 1)
-        for bg in arr.bg_streams:
-            bg.add_noise(0, 1)
-        fb = PF.PolyphaseFilterbank(num_taps=taps, num_branches=P)
-        T = taps * Wb
-        be = B.RawVoltageBackend(arr, UQ(), fb, UCQ(num_bits=bits), start_chan=0, num_chans=P // 2,
-                                 block_size=T * nant * (P // 2) * 2 * npol, blocks_per_file=2, num_subblocks=nsb)
-        w = npx.sarr([Sym(z3.Real(f'w_{m}')) for m in range(taps * P)])
-        for a in range(nant):
-            for p in range(npol):
-                be.digitizer[a][p].ident = (a, p)
-                be.requantizer[a][p].ident = (a, p)
-                be.filterbank[a][p].window = w
-        ws = [lift(x) for x in w]
-        own = [[st.rng.seed for st in ant.streams] for ant in arr.antennas]
-        bgs = [bg.rng.seed for bg in arr.bg_streams]
+        be, arr, ws, own, bgs = build_array(P, taps, Wb, nsb, npol, delays)
         try:
             be.record('/mem/arr', num_blocks=nblocks, length_mode='num_blocks', header_dict={}, digitize=True, verbose=False, load_template=False)
         except AssertionError as e:
